@@ -198,6 +198,8 @@ type result = {
   mutable nreads : int; mutable nsplit : int; mutable nshort : int; mutable nblocked : int; mutable ntc : int;
   mutable npw : int; mutable crashed : bool; mutable nclosed_bad : int; mutable w2ops : int;
   mutable dup_retry : bool;   (* some query got two retry-causing answers (REFUSED/SERVFAIL/NOTIMP/TC) on one socket *)
+  mutable aorder : (int * int * int) list;   (* answers in the order they were handed to process_answer: socket, id, TC bit + rcode *)
+  mutable retryish : bool;    (* one of them was retry-causing (SERVFAIL/NOTIMP/REFUSED rcode or TC) *)
 }
 
 let canon_ev sscb = function
@@ -214,7 +216,7 @@ let analyze (head : string) (fam : string) (lines : string array) : result =
   let chan_flags = z_of_int ((if List.mem "igntc" flags then int_of_z aRES_FLAG_IGNTC else 0)
                              + (if List.mem "nocheckresp" flags then int_of_z aRES_FLAG_NOCHECKRESP else 0)) in
   let r = { cbs = []; txs = []; endstate = ""; diffs = []; fails = []; nreads = 0; nsplit = 0; nshort = 0;
-            nblocked = 0; ntc = 0; npw = 0; crashed = false; nclosed_bad = 0; w2ops = 0; dup_retry = false } in
+            nblocked = 0; ntc = 0; npw = 0; crashed = false; nclosed_bad = 0; w2ops = 0; dup_retry = false; aorder = []; retryish = false } in
   let retry_cnt : (int * int, int) Hashtbl.t = Hashtbl.create 8 in
   let diff s = if List.length r.diffs < 4 then r.diffs <- s :: r.diffs in
   let fail k s = if List.length r.fails < 4 then r.fails <- (k, s) :: r.fails in
@@ -233,8 +235,16 @@ let analyze (head : string) (fam : string) (lines : string array) : result =
   let tx_by_sock : (int, string list) Hashtbl.t = Hashtbl.create 8 in
   let tok_tx : (int, (int * int) list) Hashtbl.t = Hashtbl.create 16 in
   let raw_req : (int, string list) Hashtbl.t = Hashtbl.create 8 in
+  let slow_sock : (int, unit) Hashtbl.t = Hashtbl.create 8 in   (* sockets that had a short / blocked write *)
   Array.iteri (fun li l ->
-    if starts_with "REQ " l then (match words l with
+    if starts_with "SENDTO " l then (match words l with
+        | _ :: s :: rest ->
+          (match sock_of s, kvi "len" rest, kvi "rc" rest with
+           | Some k, Some len, Some rc when rc < len -> Hashtbl.replace slow_sock k ()
+           | Some k, _, None -> Hashtbl.replace slow_sock k ()
+           | _ -> ())
+        | _ -> ())
+    else if starts_with "REQ " l then (match words l with
         | _ :: t :: "sendraw" :: hex :: _ ->
           (* legacy ares_send with caller-built bytes: the question name identifies the token, the
              canonical (pointer-free) form of the request is what every transmission must carry *)
@@ -266,6 +276,14 @@ let analyze (head : string) (fam : string) (lines : string array) : result =
     let txs = try Hashtbl.find tok_tx t with Not_found -> [] in
     let prev = List.fold_left (fun acc (p, s) -> if p < q then Some s else acc) None txs in
     let next = List.find_map (fun (p, s) -> if p > q then Some s else None) txs in
+    (* The order of the TX lines (message complete at the server) is the order in which the query
+       moved between connections only when the writes are prompt: behind a short / blocked write a
+       frame queued earlier on s1 can complete after the re-transmission queued later on s2.  With
+       transmissions on several sockets, one of them slow, the log does not determine where the
+       query is: `Maybe for every socket that carried it. *)
+    let socks_of_t = List.sort_uniq compare (List.map snd txs) in
+    let ambiguous = List.length socks_of_t > 1 && List.mem k socks_of_t && List.exists (fun s -> Hashtbl.mem slow_sock s) socks_of_t in
+    if ambiguous then (if List.exists (fun (p, _) -> p < q) txs then `Maybe else `No) else
     match prev, next with
     | None, _ -> `No
     | Some ps, None -> if ps = k then `Yes else `No
@@ -371,6 +389,8 @@ let analyze (head : string) (fam : string) (lines : string array) : result =
       match dns_info arr with
       | None -> None
       | Some (id, fl, name) ->
+        r.aorder <- (s.sidx, id, fl land 0x020f) :: r.aorder;
+        if fl land 0x0200 <> 0 || List.mem (fl land 15) [2; 4; 5] then r.retryish <- true;
         (match Hashtbl.find_opt tok_of_name name with
          | None -> None
          | Some t ->
@@ -763,7 +783,7 @@ let emit (line : string) =
 let () =
   let cases = read_lines Sys.argv.(1) in
   let (impl, implcnt) = group_lines Sys.argv.(2) in
-  let tot_reads = ref 0 and tot_split = ref 0 and tot_short = ref 0 and tot_block = ref 0 and tot_tc = ref 0 and tot_w2 = ref 0 and tot_unfair = ref 0 in
+  let tot_reads = ref 0 and tot_split = ref 0 and tot_short = ref 0 and tot_block = ref 0 and tot_tc = ref 0 and tot_w2 = ref 0 and tot_unfair = ref 0 and tot_odep = ref 0 in
   List.iteri (fun k line ->
     match String.index_opt line '|' with
     | None -> Printf.ksprintf emit "CASE %d trivial-badcase\n" k
@@ -793,8 +813,8 @@ let () =
             (if unwatched then "unsent bytes on a socket the library does not watch for writability (runw)"
              else if stalled then "an event loop of the history hit its iteration limit" else Printf.sprintf "%d log lines" nl)
       end else
-      (* a variant is a fair history when, after the last stimulus (request, response, raw bytes),
-         an event loop ran to quiescence: only then has everything the server sent been delivered
+      (* a variant is a fair history when, after the last stimulus (request, response, raw bytes,
+         clock step, timeout processing, single process call), an event loop ran to quiescence: only then has everything the server sent been delivered
          and the outcomes of two variants are comparable (the shrinker may delete the final loops) *)
       let fair (ls : string list) =
         let rec go seen_run = function      (* ls is in reverse order *)
@@ -802,11 +822,24 @@ let () =
           | l :: tl ->
             if starts_with "RUN iterations=" l then go true tl
             else if starts_with "RSP " l || starts_with "REQ " l || starts_with "RAW " l then seen_run
+            else if (match words l with "OP" :: _ :: op :: _ -> List.mem op ["adv"; "proct"; "proc"; "eof"; "reset"; "zerolen"] | _ -> false) then seen_run
             else go seen_run tl in
         go false ls in
       let all_fair = fair !seg && fair !plain && (!nopw = [] || fair !nopw) in
       if not all_fair then incr tot_unfair;
       let a = analyze head fam (Array.of_list (List.rev !seg)) in
+      (* Several servers: the chunking also changes the order in which answers that are readable
+         on DIFFERENT sockets at the same time are processed (unsegmented: everything on the first
+         socket, then the second; segmented: interleaved).  When retry-causing answers are among
+         them the outcome legitimately depends on that order, as it does on which server answers
+         first: e.g. a late REFUSED for a timed-out transmission on s1 is dropped while the query
+         sits on s0, but counts as the answer to the re-transmission once the query is back on s1
+         (same id, same connection); server failure counts and thereby the next server differ too.
+         Such a pair of runs is not a re-segmentation of the same per-connection streams in the
+         same order and is not compared (STAT order_dependent); that every request completes is
+         still checked. *)
+      let order_dep (x : result) (y : result) = (x.retryish || y.retryish) && x.aorder <> y.aorder in
+      let completed (x : result) = List.sort compare (List.map (fun c -> match words c with t :: _ -> t | [] -> "") x.cbs) in
       if crashed || !plain = [] then begin
         Printf.ksprintf emit "CASE %d %s:crashed\n" k fam;
         List.iter (fun d -> Printf.ksprintf emit "DIFF %d seg: %s\n" k d) (List.rev a.diffs)
@@ -832,6 +865,8 @@ let () =
           List.iter (fun d -> Printf.ksprintf emit "DIFF %d nopw: %s\n" k d) (List.rev c.diffs);
           List.iter (fun (kd, d) -> Printf.ksprintf emit "FAIL %d %s nopw: %s\n" k kd d) (List.rev c.fails);
           let pkind = if a.dup_retry || c.dup_retry then "metamorphic-dup" else "metamorphic-pw" in
+          let servers_ = match kvi "servers" (words head) with Some v -> v | None -> 1 in
+          let all_fair = all_fair && not (servers_ > 1 && order_dep a c) in
           if not all_fair then ()
           else if a.cbs <> c.cbs then
             Printf.ksprintf emit "FAIL %d %s callbacks differ with / without the pending-write callback\n" k pkind;
@@ -849,7 +884,14 @@ let () =
            read_answers() batch as the first (then the query is detached and the answer dropped)
            or later (then it hits the re-sent query).  Reported under its own kind. *)
         let mkind = if a.dup_retry || b.dup_retry then "metamorphic-dup" else "metamorphic" in
-        if not all_fair then ()
+        let odep = servers > 1 && order_dep a b in
+        if odep && all_fair then begin
+          incr tot_odep;
+          if completed a <> completed b then
+            Printf.ksprintf emit "FAIL %d %s the sets of completed requests differ: segmented=[%s] unsegmented=[%s]\n" k mkind
+              (String.concat "," (completed a)) (String.concat "," (completed b))
+        end;
+        if not all_fair || odep then ()
         else begin
         if a.cbs <> b.cbs then begin
           let only x y = List.filter (fun c -> not (List.mem c y)) x in
@@ -878,5 +920,5 @@ let () =
         end
         end
       end) cases;
-  Printf.ksprintf emit "STAT read_events %d\nSTAT reads_completing_a_buffered_frame %d\nSTAT short_writes %d\nSTAT blocked_writes %d\nSTAT tc_upgrades %d\nSTAT w2_ops %d\nSTAT unfair_histories %d\n"
-    !tot_reads !tot_split !tot_short !tot_block !tot_tc !tot_w2 !tot_unfair
+  Printf.ksprintf emit "STAT read_events %d\nSTAT reads_completing_a_buffered_frame %d\nSTAT short_writes %d\nSTAT blocked_writes %d\nSTAT tc_upgrades %d\nSTAT w2_ops %d\nSTAT unfair_histories %d\nSTAT order_dependent %d\n"
+    !tot_reads !tot_split !tot_short !tot_block !tot_tc !tot_w2 !tot_unfair !tot_odep
